@@ -5,6 +5,11 @@ V = os.path.dirname(os.path.dirname(os.path.abspath(__file__)))
 
 # id -> dict(level, engine, technique, text, note, design)
 CLAIMED = {
+ "C04": dict(level="exploration", engine="lib-inproc + vsh-virtual",
+   technique="reference-model monitor: POSIX pattern parser + brute-force matcher vs yash_fnmatch (match, find, the four trims), then case/trim through the shell",
+   text="Exhaustive token sequences to length 4 (bracket-inner forms as single tokens) x all strings to length 3 (quick) / 4 over a 10-character alphabet, exhaustive bracket bodies of up to 3/4 inner tokens (plain, complemented, with trailing *), seeded random long patterns with regex-special and non-ASCII characters, each checked for full match, literal-period match and shortest/longest prefix/suffix removal; shell level: case with multi-alternative items (ill-defined alternatives mixed in) and ${v#p} ${v##p} ${v%p} ${v%%p} with random quoting.",
+   note="Trusted: models/fnm.rs. Patterns POSIX leaves unspecified ([^..], reversed ranges, unknown classes, multi-character collating symbols, quoted specials inside brackets) are skipped and counted; locale-dependent collation is out of scope (the crate documents ASCII classes).",
+   design="5/C04"),
  "C03": dict(level="exploration", engine="lib-inproc + vsh-virtual",
    technique="reference-model monitor: exact i128 evaluator over generated expression trees vs yash_arith::eval (value, error, side effects), panic monitor on arbitrary text",
    text="Exhaustive operator x boundary-operand tables (unary, binary, compound assignment, ++/--), exhaustive two-operator shapes printed with minimal parentheses (precedence/associativity), short-circuit inertness table, variable-holds-constant agreement table, then seeded random trees to depth 6 with variables, totality inputs (token soup, mutations, Unicode), and a through-the-shell slice (probe $((expr)) in subshells on the virtual system).",
